@@ -1,4 +1,5 @@
 import Beetswap.Spec.ClientSpec
+import Beetswap.Proofs.ClientViewStep
 /-!
 Proofs about the per-peer wantlist exchange (C04, C05, C15, C17). The statements are used by
 `Props/` and must keep these exact statements.
@@ -9,15 +10,57 @@ open Std Beetswap.Client Beetswap.Wl Beetswap.Spec.ClientSpec
 /-! ### The invariant -/
 
 theorem ginv_init : GInv ({} : GSys) := by
-  sorry
+  constructor
+  · intro p ps hp
+    have : ({} : GSys).sys.s.peers[p]? = none := kmap_get_empty p
+    rw [this] at hp; cases hp
+  · intro _ k; exact kset_not_mem_empty k
+  · intro p ps hp
+    have : ({} : GSys).sys.s.peers[p]? = none := kmap_get_empty p
+    rw [this] at hp; cases hp
+  · intro p c m hm; cases hm
 
 theorem ginv_step (x : GSys) (op : Op) (h : GInv x) : GInv (gstep x op).1 := by
-  sorry
+  exact ginv_step' x op h
 
 theorem ginv_reachable (x : GSys) (h : GReachable x) : GInv x := by
-  sorry
+  induction h with
+  | init => exact ginv_init
+  | step op _ ih => exact ginv_step _ op ih
 
 /-! ### C04: the peer's view converges to the live queries -/
+
+/-- Every `send` output of a step comes from `updatePeer` run on a peer entry that satisfies
+the invariant with its pre-step history (under the post-step wantlist). -/
+theorem send_origin (x : GSys) (hinv : GInv x) (op : Op) (p c : Nat) (m : WlMsg)
+    (hs : Out.send p c m ∈ (gstep x op).2) :
+    ∃ (ps2 : PeerSt) (g : Ghost) (now : Nat) (pref : Option Nat) (ops : Option PeerSt),
+      x.ghost[p]? = some g ∧ PeerInv (gstep x op).1.sys.s ps2 g ∧
+      updatePeer (gstep x op).1.sys.s.wantlist now ps2 pref = (ops, some (c, m)) := by
+  rw [gstep_eq] at hs ⊢
+  cases op with
+  | drain pref =>
+    change Out.send p c m ∈ (drain x.sys.s x.sys.now x.sys.seq pref).2.2 at hs
+    show ∃ (ps2 : PeerSt) (g : Ghost) (now : Nat) (pref' : Option Nat) (ops : Option PeerSt),
+      x.ghost[p]? = some g ∧ PeerInv (drain x.sys.s x.sys.now x.sys.seq pref).1 ps2 g ∧
+      updatePeer (drain x.sys.s x.sys.now x.sys.seq pref).1.wantlist now ps2 pref' = (ops, some (c, m))
+    have hmid : MidInv x.ghost x.sys.s := ⟨hinv.peers, hinv.rev_zero, hinv.conns_nonempty⟩
+    obtain ⟨d1, d2, d3, d4, d5, d6⟩ := drain_spec x.sys.s x.sys.now x.sys.seq pref hinv.queue_nosend
+    have hmid2 := (afterTasks_spec x.sys.s x.sys.now x.sys.seq).1 _ hmid
+    have hsent := (d6 p c m).1 hs
+    unfold sentTo at hsent
+    cases hps2 : (afterTasks x.sys.s x.sys.now x.sys.seq).1.peers[p]? with
+    | none => simp [hps2] at hsent
+    | some ps2 =>
+      simp only [hps2, Option.bind_some] at hsent
+      obtain ⟨g, hg, hi⟩ := hmid2.peers p ps2 hps2
+      refine ⟨ps2, g, x.sys.now, pref p,
+        (updatePeer (afterTasks x.sys.s x.sys.now x.sys.seq).1.wantlist x.sys.now ps2 (pref p)).1,
+        hg, hi.congr d1 rfl, ?_⟩
+      rw [d1]
+      exact Prod.ext rfl hsent
+  | _ => cases hs
+
 
 /-- Q1: whenever the node has nothing further to send to the peer, every CID in the peer's view
 that the peer has not itself delivered belongs to the node's wantlist (= the CIDs of its
@@ -25,14 +68,40 @@ unresolved, uncancelled queries, see `ClientQuery.wantlist_eq_waiter_keys`). -/
 theorem quiescent_sound (x : GSys) (h : GReachable x) (p : Nat) (ps : PeerSt) (g : Ghost)
     (hp : x.sys.s.peers[p]? = some ps) (hg : x.ghost[p]? = some g) (hq : Quiescent x.sys.s ps)
     (k : Nat) (hk : k ∈ g.told) (hd : k ∉ g.deliv) : k ∈ x.sys.s.wantlist.cids := by
-  sorry
+  have hinv := ginv_reachable x h
+  obtain ⟨g', hg', hi⟩ := hinv.peers p ps hp
+  rw [hg] at hg'; cases hg'
+  obtain ⟨_, _, hu⟩ := hq
+  simp only [WState.isUpdated, Bool.and_eq_true, Bool.not_eq_true', beq_iff_eq] at hu
+  have hreq : ps.wl.req[k]? ≠ none := fun hn => hd (hi.told_tracked k hk hn)
+  have hmem : k ∈ ps.wl.req := by
+    rw [kmap_mem_iff]
+    cases hr : ps.wl.req[k]? with
+    | none => exact absurd hr hreq
+    | some r => exact ⟨r, rfl⟩
+  exact (hi.synced_keys hu.2 k).1 hmem
 
 /-- Q2: … and every wanted CID is in the peer's view unless the peer answered DONT_HAVE for it.
 (Stronger than the property, which also tolerates "already delivered since being asked".) -/
 theorem quiescent_complete (x : GSys) (h : GReachable x) (p : Nat) (ps : PeerSt) (g : Ghost)
     (hp : x.sys.s.peers[p]? = some ps) (hg : x.ghost[p]? = some g) (hq : Quiescent x.sys.s ps)
     (k : Nat) (hk : k ∈ x.sys.s.wantlist.cids) : k ∈ g.told ∨ k ∈ g.dh := by
-  sorry
+  have hinv := ginv_reachable x h
+  obtain ⟨g', hg', hi⟩ := hinv.peers p ps hp
+  rw [hg] at hg'; cases hg'
+  obtain ⟨_, _, hu⟩ := hq
+  simp only [WState.isUpdated, Bool.and_eq_true, Bool.not_eq_true', beq_iff_eq] at hu
+  have hmem : k ∈ ps.wl.req := (hi.synced_keys hu.2 k).2 hk
+  rw [kmap_mem_iff] at hmem
+  obtain ⟨r, hr⟩ := hmem
+  cases r with
+  | sentWantHave => exact .inl (hi.asked_told k (.inl hr))
+  | sentWantBlock => exact .inl (hi.asked_told k (.inr hr))
+  | gotDontHave => exact .inr ((hi.dh_iff k).2 hr)
+  | gotBlock => exact absurd hk (hi.got_unwanted k hr)
+  | gotHave =>
+    have := hi.have_forces k hr
+    rw [hu.1] at this; cases this
 
 /-- Q3: every full wantlist lists exactly the wanted CIDs minus the DONT_HAVE ones, and carries
 no cancel entries. -/
@@ -42,35 +111,62 @@ theorem full_exact (x : GSys) (h : GReachable x) (op : Op) (p c : Nat) (m : WlMs
     m.cancel = [] ∧
     ∀ k, (k ∈ m.wantHave ∨ k ∈ m.wantBlock) ↔
       (k ∈ (gstep x op).1.sys.s.wantlist.cids ∧ k ∉ g.dh) := by
-  sorry
+  have hinv := ginv_reachable x h
+  obtain ⟨ps2, g', now, pref, ops, hg', hi, hu⟩ := send_origin x hinv op p c m hs
+  rw [hg] at hg'; cases hg'
+  rcases updatePeer_msg hu with rfl | rfl
+  · refine ⟨genFull_cancel _ _, ?_⟩
+    intro k
+    rw [genFull_wantHave, genFull_wantBlock, hi.dh_iff k]
+    have hgu := hi.got_unwanted k
+    rcases hr : ps2.wl.req[k]? with _ | r
+    · simp
+    · cases r <;> simp_all
+  · rw [genUpdate_full] at hf; cases hf
 
 /-- Wantlists are only handed to peers with a running session (so `g` above always exists). -/
 theorem no_send_without_session (x : GSys) (h : GReachable x) (op : Op) (p c : Nat) (m : WlMsg)
     (hs : Out.send p c m ∈ (gstep x op).2) : ∃ g, x.ghost[p]? = some g := by
-  sorry
+  have hinv := ginv_reachable x h
+  obtain ⟨ps2, g, now, pref, ops, hg, _⟩ := send_origin x hinv op p c m hs
+  exact ⟨g, hg⟩
 
 /-- An update cancels every CID that is no longer wanted and that the peer was told about
 and has not delivered. -/
 theorem update_cancels_unwanted (s : WState) (w : Wantlist) (hu : s.isUpdated w = false) (k : Nat)
     (r : Req) (hr : s.req[k]? = some r) (hb : r ≠ Req.gotBlock) (hk : k ∉ w.cids) :
     k ∈ (s.genUpdate w).2.cancel ∧ (s.genUpdate w).1.req[k]? = none := by
-  sorry
+  rw [genUpdate_cancel s w hu, genUpdate_req s w hu, fullNext_eq]
+  exact ⟨⟨hk, r, hr, hb⟩, by simp [hk]⟩
 
 /-- An update announces every wanted CID the peer has no exchange entry for. -/
 theorem update_announces_new (s : WState) (w : Wantlist) (hu : s.isUpdated w = false) (k : Nat)
     (hr : s.req[k]? = none) (hk : k ∈ w.cids) :
     k ∈ (s.genUpdate w).2.wantHave ∧ (s.genUpdate w).1.req[k]? = some Req.sentWantHave := by
-  sorry
+  rw [genUpdate_wantHave s w hu, genUpdate_req s w hu, fullNext_eq]
+  exact ⟨⟨hk, hr⟩, by simp [hk, hr]⟩
 
 /-- `is_updated` never hides a pending difference: every change of the wantlist makes every
 peer state not-updated. -/
 theorem insert_unsyncs (w : Wantlist) (k : Nat) (s : WState) (hs : s.synced ≤ w.revision)
     (hi : (w.insert k).2 = true) : s.isUpdated (w.insert k).1 = false := by
-  sorry
+  unfold Wantlist.insert at hi ⊢
+  split at hi
+  · simp at hi
+  · rename_i h
+    simp only [h, if_false, WState.isUpdated]
+    have : s.synced ≠ w.revision + 1 := by omega
+    simp [this]
 
 theorem remove_unsyncs (w : Wantlist) (k : Nat) (s : WState) (hs : s.synced ≤ w.revision)
     (hi : (w.remove k).2 = true) : s.isUpdated (w.remove k).1 = false := by
-  sorry
+  unfold Wantlist.remove at hi ⊢
+  split at hi
+  · rename_i h
+    simp only [h, if_true, WState.isUpdated]
+    have : s.synced ≠ w.revision + 1 := by omega
+    simp [this]
+  · simp at hi
 
 /-! ### C17: full blocks are requested only from peers that announced them -/
 
@@ -79,18 +175,30 @@ session and has not answered DONT_HAVE for it since. -/
 theorem want_block_needs_have (x : GSys) (h : GReachable x) (op : Op) (p c : Nat) (m : WlMsg)
     (hs : Out.send p c m ∈ (gstep x op).2) (k : Nat) (hk : k ∈ m.wantBlock) :
     ∃ g, x.ghost[p]? = some g ∧ k ∈ g.haveOk := by
-  sorry
+  have hinv := ginv_reachable x h
+  obtain ⟨ps2, g, now, pref, ops, hg, hi, hu⟩ := send_origin x hinv op p c m hs
+  refine ⟨g, hg, ?_⟩
+  rcases updatePeer_msg hu with rfl | rfl
+  · rw [genFull_wantBlock] at hk
+    exact hi.wb_have k hk.2
+  · by_cases hup : ps2.wl.isUpdated (gstep x op).1.sys.s.wantlist = true
+    · rw [genUpdate_of_updated _ _ hup] at hk; cases hk
+    · have hup : ps2.wl.isUpdated (gstep x op).1.sys.s.wantlist = false := by simpa using hup
+      rw [genUpdate_wantBlock _ _ hup] at hk
+      exact hi.wb_have k (.inl hk.2)
 
 /-- A peer whose latest answer is HAVE is sent the want-block with the next update. -/
 theorem have_gets_want_block (s : WState) (w : Wantlist) (k : Nat)
     (hr : s.req[k]? = some Req.gotHave) (hf : s.force = true) (hk : k ∈ w.cids) :
     k ∈ (s.genUpdate w).2.wantBlock ∧ (s.genUpdate w).1.req[k]? = some Req.sentWantBlock := by
-  sorry
+  have hu : s.isUpdated w = false := by simp [WState.isUpdated, hf]
+  rw [genUpdate_wantBlock s w hu, genUpdate_req s w hu, fullNext_eq]
+  exact ⟨⟨hk, hr⟩, by simp [hk, hr]⟩
 
 /-- HAVE for a CID with an exchange entry forces an update. -/
 theorem have_forces_update (s : WState) (w : Wantlist) (k : Nat) :
     (s.gotHave k).isUpdated w = false := by
-  sorry
+  simp [WState.isUpdated, WState.gotHave]
 
 /-! ### C05: self-healing after a transmission fault (behaviour side) -/
 
@@ -102,17 +210,33 @@ def FaultOutcome (now : Nat) (ps : PeerSt) (c : Nat) (res : Option PeerSt × Opt
   (∃ ps' c' m, res = (some ps', some (c', m)) ∧ m.full = true ∧ c' ≠ c ∧ c' ∈ ps.conns
     ∧ c ∉ ps'.conns ∧ ps'.sending = Sending.requested now c' ∧ ps'.sendFull = false)
 
+theorem fault_go (w : Wantlist) (now : Nat) (ps : PeerSt) (pref : Option Nat) (c : Nat) :
+    FaultOutcome now ps c
+      (goPeer w now pref { ps with conns := ps.conns.erase c, sendFull := true, sending := .ready }) := by
+  by_cases he : (ps.conns.erase c).isEmpty = true
+  · left; exact ⟨goPeer_empty _ _ _ _ he, he⟩
+  · right
+    have he' : (ps.conns.erase c).isEmpty = false := by simpa using he
+    have hm := pickConn_mem _ pref he'
+    rw [goPeer_full _ _ _ _ rfl he']
+    rw [kset_mem_erase] at hm
+    refine ⟨_, _, _, rfl, rfl, hm.1, hm.2, ?_, rfl, rfl⟩
+    simp
+
 /-- After a transmission is reported failed, the connection is dropped and the next wantlist
 is a full one over a remaining connection (or the peer is dropped if none remains). -/
 theorem failed_forces_full (w : Wantlist) (now : Nat) (ps : PeerSt) (pref : Option Nat) (c : Nat)
     (hs : ps.sending = Sending.failed c) : FaultOutcome now ps c (updatePeer w now ps pref) := by
-  sorry
+  rw [updatePeer_eq, hs]
+  exact fault_go w now ps pref c
 
 /-- Same when the handler never acknowledged the request within the timeout. -/
 theorem ack_timeout_forces_full (w : Wantlist) (now : Nat) (ps : PeerSt) (pref : Option Nat)
     (t c : Nat) (hs : ps.sending = Sending.requested t c) (ht : ¬ now - t < receiveRequestTimeout) :
     FaultOutcome now ps c (updatePeer w now ps pref) := by
-  sorry
+  rw [updatePeer_eq, hs]
+  simp only [ht, if_false]
+  exact fault_go w now ps pref c
 
 /-- While a transmission is in flight nothing is handed to any connection of the peer and the
 peer state is untouched. -/
@@ -120,26 +244,49 @@ theorem one_in_flight (w : Wantlist) (now : Nat) (ps : PeerSt) (pref : Option Na
     (hs : (∃ c, ps.sending = Sending.requestReceived c) ∨ (∃ c, ps.sending = Sending.sending c) ∨
           (∃ t c, ps.sending = Sending.requested t c ∧ now - t < receiveRequestTimeout)) :
     updatePeer w now ps pref = (some ps, none) := by
-  sorry
+  rw [updatePeer_eq]
+  rcases hs with ⟨c, h⟩ | ⟨c, h⟩ | ⟨t, c, h, ht⟩
+  · rw [h]
+  · rw [h]
+  · rw [h]; simp [ht]
 
 /-- A pending full wantlist is sent as soon as the peer is ready, over one of its connections. -/
 theorem sendfull_next_is_full (w : Wantlist) (now : Nat) (ps : PeerSt) (pref : Option Nat)
     (hr : ps.sending = Sending.ready) (hf : ps.sendFull = true) (hc : ps.conns.isEmpty = false) :
     ∃ ps' c m, updatePeer w now ps pref = (some ps', some (c, m)) ∧ m.full = true ∧ c ∈ ps.conns
       ∧ ps'.sendFull = false ∧ ps'.sending = Sending.requested now c := by
-  sorry
+  rw [updatePeer_eq, hr]
+  simp only [goPeer_full _ _ _ _ hf hc]
+  exact ⟨_, _, _, rfl, rfl, pickConn_mem _ _ hc, rfl, rfl⟩
 
 /-- Every wantlist is handed to exactly one connection, which is one of the peer's. -/
 theorem send_on_own_connection (w : Wantlist) (now : Nat) (ps : PeerSt) (pref : Option Nat)
     (ps' : PeerSt) (c : Nat) (m : WlMsg) (h : updatePeer w now ps pref = (some ps', some (c, m))) :
     c ∈ ps.conns ∧ c ∈ ps'.conns ∧ ps'.sending = Sending.requested now c := by
-  sorry
+  have hr := updatePeer_res w now ps pref
+  rw [h] at hr
+  generalize hres : (some ps', some (c, m)) = res at hr
+  cases hr with
+  | idle => cases hres
+  | go ps0 _ hwl hsub _ hgo =>
+    cases hgo with
+    | drop => cases hres
+    | full hc0 hf =>
+      cases hres
+      exact ⟨hsub _ (pickConn_mem _ _ hc0), pickConn_mem _ _ hc0, rfl⟩
+    | quiet hc0 hf he => cases hres
+    | upd hc0 hf he =>
+      cases hres
+      exact ⟨hsub _ (pickConn_mem _ _ hc0), pickConn_mem _ _ hc0, rfl⟩
 
 /-- The first wantlist of every new peer session is full. -/
 theorem first_of_session_full (s : State) (p c : Nat) (h : s.peers[p]? = none) :
     ∃ ps, (connect s p c).peers[p]? = some ps ∧ ps.sendFull = true ∧ ps.sending = Sending.ready
       ∧ c ∈ ps.conns := by
-  sorry
+  refine ⟨_, by simp only [connect, kmap_get_insert, if_true]; rfl, ?_, ?_, ?_⟩
+  · simp [h]
+  · simp [h]
+  · simp
 
 /-- When the refresh timer has expired, a drain marks every peer for a full wantlist: each
 peer either is sent a full wantlist in this drain, or still has it pending, or is dropped. -/
@@ -149,7 +296,39 @@ theorem refresh_sets_full_all (s : State) (now seq : Nat) (pref : Nat → Option
     ((∃ c m, Out.send p c m ∈ (drain s now seq pref).2.2 ∧ m.full = true) ∨
      (∃ ps', (drain s now seq pref).1.peers[p]? = some ps' ∧ ps'.sendFull = true) ∨
      (drain s now seq pref).1.peers[p]? = none) := by
-  sorry
+  obtain ⟨d1, d2, d3⟩ := drain_spec_nq s now seq pref
+  refine ⟨by rw [d1]; simp [hd], ?_⟩
+  have hfr := (afterTasks_spec s now seq).2.1 p
+  rw [hp] at hfr
+  cases hps2 : (afterTasks s now seq).1.peers[p]? with
+  | none => rw [hps2] at hfr; cases hfr
+  | some ps2 =>
+    rw [hps2] at hfr
+    simp only [Option.map_some, pframe, hd, decide_true, Bool.or_true, Option.some.injEq,
+      Prod.mk.injEq] at hfr
+    have hsf : ps2.sendFull = true := hfr.2.2
+    have hnext : (drain s now seq pref).1.peers[p]? =
+        (updatePeer (afterTasks s now seq).1.wantlist now ps2 (pref p)).1 := by
+      rw [d2 p]; simp [nextPeer, hps2]
+    have hsent : ∀ c m, (updatePeer (afterTasks s now seq).1.wantlist now ps2 (pref p)).2 = some (c, m) →
+        Out.send p c m ∈ (drain s now seq pref).2.2 := by
+      intro c m hu
+      apply d3
+      simp [sentTo, hps2, hu]
+    have hr := updatePeer_res (afterTasks s now seq).1.wantlist now ps2 (pref p)
+    generalize hres : updatePeer (afterTasks s now seq).1.wantlist now ps2 (pref p) = res at hr hnext hsent
+    cases hr with
+    | idle => right; left; exact ⟨ps2, hnext, hsf⟩
+    | go ps0 _ hwl hsub hf0 hgo =>
+      have hf0 : ps0.sendFull = true := by
+        rcases hf0 with e | e
+        · exact e
+        · rw [e]; exact hsf
+      cases hgo with
+      | drop => right; right; exact hnext
+      | full hc0 _ => left; exact ⟨_, _, hsent _ _ rfl, rfl⟩
+      | quiet _ hff _ => rw [hf0] at hff; cases hff
+      | upd _ hff _ => rw [hf0] at hff; cases hff
 
 /-! ### C15: extra connections neither duplicate nor reset the exchange (client side) -/
 
@@ -159,16 +338,41 @@ theorem extra_connection_keeps_state (s : State) (p c : Nat) (ps : PeerSt)
       ∧ ps'.sendFull = ps.sendFull ∧ (∀ c', c' ∈ ps'.conns ↔ (c' = c ∨ c' ∈ ps.conns))
       ∧ (∀ q, q ≠ p → (connect s p c).peers[q]? = s.peers[q]?)
       ∧ (connect s p c).wantlist = s.wantlist ∧ (connect s p c).queue = s.queue := by
-  sorry
+  refine ⟨_, by simp only [connect, kmap_get_insert, if_true]; rfl, ?_, ?_, ?_, ?_, ?_, rfl, rfl⟩
+  · simp [h]
+  · simp [h]
+  · simp [h]
+  · intro c'; simp only [h, Option.getD_some]; exact kset_mem_insert _ _ _
+  · intro q hq; simp [connect, kmap_get_insert, hq]
 
 theorem close_one_keeps_peer (s : State) (p c : Nat) (ps : PeerSt) (h : s.peers[p]? = some ps)
     (c2 : Nat) (h2 : c2 ∈ ps.conns) (hne : c2 ≠ c) :
     ∃ ps', (closed s p c).peers[p]? = some ps' ∧ ps'.wl = ps.wl ∧ ps'.sending = ps.sending
       ∧ ps'.sendFull = ps.sendFull ∧ (∀ c', c' ∈ ps'.conns ↔ (c' ≠ c ∧ c' ∈ ps.conns)) := by
-  sorry
+  have hne' : (ps.conns.erase c).isEmpty = false := by
+    rw [ExtTreeSet.isEmpty_eq_false_iff]
+    exact ExtTreeSet.ne_empty_of_mem ((kset_mem_erase _ _ _).2 ⟨hne, h2⟩)
+  refine ⟨{ ps with conns := ps.conns.erase c }, ?_, rfl, rfl, rfl, ?_⟩
+  · rw [closed_peers s p c ps h]; simp [hne']
+  · intro c'; exact kset_mem_erase _ _ _
 
 theorem discard_only_on_last (s : State) (p c : Nat) (ps : PeerSt) (h : s.peers[p]? = some ps) :
     ((closed s p c).peers[p]? = none ↔ ∀ c', c' ∈ ps.conns → c' = c) := by
-  sorry
+  rw [closed_peers s p c ps h]
+  simp only [if_true]
+  by_cases he : (ps.conns.erase c).isEmpty = true
+  · simp only [he, if_true, true_iff]
+    intro c' hc'
+    rw [ExtTreeSet.isEmpty_iff, ExtTreeSet.eq_empty_iff_forall_not_mem] at he
+    have := he c'
+    rw [kset_mem_erase] at this
+    exact Classical.byContradiction fun hn => this ⟨hn, hc'⟩
+  · simp only [he, Bool.false_eq_true, if_false, reduceCtorEq, false_iff]
+    intro hall
+    apply he
+    rw [ExtTreeSet.isEmpty_iff, ExtTreeSet.eq_empty_iff_forall_not_mem]
+    intro a ha
+    rw [kset_mem_erase] at ha
+    exact ha.1 (hall a ha.2)
 
 end Beetswap.Proofs.ClientView
